@@ -23,12 +23,9 @@ theorem fieldBegin_cons (id : Int) (v : TVal) (r : TFields) (hid : inS 2 id) (re
   simp only [binRd, encFields, readFieldBegin, List.cons_append, List.append_assoc, readTType_cons, hns, if_false]
   rw [readI_i e 2 (by decide) id hid]
 
-theorem skip_enc (v : TVal) (hw : v.wt = true) (hd : admits dp v.need) (rest : Bytes) :
-    (binRd e dp).skip v.ttype (enc e v ++ rest) = .ok rest := by
-  show skipBin e _ dp v.ttype (enc e v ++ rest) = .ok rest
-  apply skipBin_enc e v hw _ _ dp hd
-  have := size_le e v hw
-  simp only [List.length_append]; omega
+theorem skip_enc (hed : EndianOk e dp) (v : TVal) (hw : v.wt = true) (hd : admits dp v.need) (rest : Bytes) :
+    (binRd e dp).skip v.ttype (enc e v ++ rest) = .ok rest :=
+  binRd_skip_enc e dp hed v hw hd rest
 
 theorem base_dec (v : TVal) (ty : STy) (hw : v.wt = true) (f : Nat) (rest : Bytes)
     (hb : (match ty, v with
@@ -130,7 +127,7 @@ theorem corrP_succ (f : Nat) (hT : CorrT e dp d f) (hP : CorrP e dp d f) : CorrP
       | panic m => simp [hpa] at h; subst h; rfl
       | fuel => simp [hpa] at h; subst h; rfl
 
-theorem corrF_succ (f : Nat) (hT : CorrT e dp d f) (hF : CorrF e dp d f) : CorrF e dp d (f + 1) := by
+theorem corrF_succ (hed : EndianOk e dp) (f : Nat) (hT : CorrT e dp d f) (hF : CorrF e dp d f) : CorrF e dp d (f + 1) := by
   intro fs slots wfs rest o hw h
   cases wfs with
   | nil =>
@@ -162,11 +159,11 @@ theorem corrF_succ (f : Nat) (hT : CorrT e dp d f) (hF : CorrF e dp d f) : CorrF
       simp only [hfind] at h ⊢
       by_cases hadm : admitsB dp v.need = true
       · simp only [hadm, if_true] at h
-        rw [skip_enc e dp v hv ((admitsB_iff dp _).mp hadm)]
+        rw [skip_enc e dp hed v hv ((admitsB_iff dp _).mp hadm)]
         exact hF fs slots r rest o hr h
       · simp [hadm] at h
 
-theorem corrU_succ (f : Nat) (hT : CorrT e dp d f) (hU : CorrU e dp d f) : CorrU e dp d (f + 1) := by
+theorem corrU_succ (hed : EndianOk e dp) (f : Nat) (hT : CorrT e dp d f) (hU : CorrU e dp d f) : CorrU e dp d (f + 1) := by
   intro vs ret wfs rest o hw h
   cases wfs with
   | nil =>
@@ -206,7 +203,7 @@ theorem corrU_succ (f : Nat) (hT : CorrT e dp d f) (hU : CorrU e dp d f) : CorrU
       simp only [hfind] at h ⊢
       by_cases hadm : admitsB dp v.need = true
       · simp only [hadm, if_true] at h
-        rw [skip_enc e dp v hv ((admitsB_iff dp _).mp hadm)]
+        rw [skip_enc e dp hed v hv ((admitsB_iff dp _).mp hadm)]
         exact hU vs ret r rest o hr h
       · simp [hadm] at h
 
@@ -367,7 +364,7 @@ open Pilota Pilota.Thrift Pilota.Thrift.Binary
 
 variable (e : Endian) (dp : Option Nat) (d : Doc)
 
-theorem corr_all : ∀ f : Nat, CorrT e dp d f ∧ CorrN e dp d f ∧ CorrP e dp d f ∧ CorrF e dp d f ∧ CorrU e dp d f := by
+theorem corr_all (hed : EndianOk e dp) : ∀ f : Nat, CorrT e dp d f ∧ CorrN e dp d f ∧ CorrP e dp d f ∧ CorrF e dp d f ∧ CorrU e dp d f := by
   intro f
   induction f with
   | zero =>
@@ -380,6 +377,6 @@ theorem corr_all : ∀ f : Nat, CorrT e dp d f ∧ CorrN e dp d f ∧ CorrP e dp
   | succ f ih =>
     obtain ⟨hT, hN, hP, hF, hU⟩ := ih
     exact ⟨corrT_succ e dp d f hT hN hP hF hU, corrN_succ e dp d f hT hN, corrP_succ e dp d f hT hP,
-      corrF_succ e dp d f hT hF, corrU_succ e dp d f hT hU⟩
+      corrF_succ e dp d hed f hT hF, corrU_succ e dp d hed f hT hU⟩
 
 end Pilota.TGen
